@@ -33,9 +33,18 @@ Theorem C20_truncateCmp_real_refuted : exists f, wf f = true /\ exists w, In w (
 Proof. exact truncateCmp_real_refuted. Qed.
 Print Assumptions C20_truncateCmp_real_refuted.
 
-Theorem C20_nilValReturn_real_refuted : exists f, wf f = true /\ exists w, In w (warnings (run_nilValReturn f)) /\ is_real w = false.
-Proof. exact nilValReturn_real_refuted. Qed.
-Print Assumptions C20_nilValReturn_real_refuted.
+(* nilValReturn consults go/types since the fix (TypesInfo.Types[expr.Y].IsNil()): every warning is about the predeclared nil *)
+Theorem C20_nilValReturn_real : forall f, wf f = true -> forall w, In w (warnings (run_nilValReturn f)) -> is_real w = true.
+Proof. exact nilValReturn_real. Qed.
+Print Assumptions C20_nilValReturn_real.
+
+Theorem C20_prefix_nilValReturn_real_refuted : exists f, wf f = true /\ exists w, In w (warnings (run_nilValReturn_prefix f)) /\ is_real w = false.
+Proof. exact nilValReturn_prefix_real_refuted. Qed.
+Print Assumptions C20_prefix_nilValReturn_real_refuted.
+
+Theorem C20_nilValReturn_silent_on_namesake : wf Witnesses.ns_nil_local = true /\ run_nilValReturn Witnesses.ns_nil_local = Ok [].
+Proof. exact nilValReturn_silent_on_namesake. Qed.
+Print Assumptions C20_nilValReturn_silent_on_namesake.
 
 Theorem C20_newDeref_real_partial : forall f, all_nodes_sat (g_no_namesake_bare "new") f -> forall w, In w (warnings (run_newDeref f)) -> is_real w = true.
 Proof. exact (fun f G w H => newDeref_real_partial f w G H). Qed.
